@@ -235,3 +235,55 @@ PROPS["C12"] = dict(
     partial=["leaves_nothing theorem (Sound(tt) kept for every poll index) not yet proved: exploration only"],
     modelled=SEARCH_MODELLED,
 )
+
+UCI_MODELLED = ["engine/uci/uci.go: process (position/ucinewgame/setoption/go depth/isready handlers), continuation, extend; engine/engine.go: Reset, Move, Analyze (iterative deepening over the search model) "
+                "-> Driver.Uci (sequential, executable), Model.UciSeq.continuation"]
+
+PROPS["C10"] = dict(
+    modules=["Morlock.Props.C10"],
+    streams=["ucidet", "engine"],
+    level_text="Lean: the extension recogniser is proved to accept a verbatim repeat with no extra words, to reject a shortened line and a prefix that is not word aligned "
+               "(witnesses of the repaired defects), and to return exactly the extra words. Tie (decides the property): scripted sessions against the real uci.Driver "
+               "in-process - position lines extended by 1-3 moves, repeated verbatim, shortened, other games, FEN clocks whose text is a prefix of the next, ucinewgame, "
+               "malformed lines in between - after every command the engine's FEN, hash, ply, clocks, last moves and result are compared with the sequential Lean model of the "
+               "driver (exact) and with a game built from the LAST command alone by the reference semantics (Spec.Game).",
+    level_note="Trusted: Lean kernel; Driver.Uci model tied exactly by the ucidet stream; the reference denote() reads only the last well-formed position command. "
+               "The refinement theorem over all command sequences is not proved (string-level reasoning): exploration.",
+    technique="differential scripted UCI sessions impl/model/reference + Lean lemmas on the extension recogniser",
+    rule="scripts of 2-6 position/ucinewgame commands (+go) over 38 start positions and random legal move lists; non-trivial = distinct script; kinds counted (extend/repeat/shorten/other-game/prefix-clock/malformed)",
+    partial=["state = denote(last command) for all sequences is not a theorem: decided by impl-vs-reference comparison"],
+    modelled=UCI_MODELLED,
+)
+
+PROPS["C04"] = dict(
+    modules=["Morlock.Props.C10", "Morlock.Props.C03"],
+    streams=["ucidet", "ucirace"],
+    timeout=dict(quick=900, thorough=6000),
+    level_text="Tie (decides the property): (a) deterministic sessions (go depth N, repeated go, hash on/off, root where a draw can be claimed): exactly one bestmove, equal to the one the "
+               "Lean model of iterative deepening predicts, and member of the reference legal moves (0000 only if none); (b) interleaving scripts against the real driver with all "
+               "five engine wirings (plain, morlock+hash, turochamp, sargon+book, bernstein+book; noise on): go infinite + stop, movetime, clocks, go during search, old movetime timers, "
+               "judged by a trace monitor: every go that ends or is stopped gets exactly one bestmove, legal in the position of THAT go, null only without legal moves. "
+               "Lean: C03.pv (the PV's first move is a legal explored move) and the C10 lemmas; the small-step driver theorems (at_most_one, answered) are in progress.",
+    level_note="Trusted: Lean kernel; Driver.Uci tied exactly on deterministic scripts; real goroutine scheduling and timers are only exercised through scripted interleavings "
+               "(gated evaluator, sleeps) - partial by nature.",
+    technique="differential + monitored scripted interleavings of the real UCI driver; Lean search-PV theorem",
+    rule="deterministic scripts as in C10 with go; 30 (quick) / 400 (thorough) interleaving scripts over 10 scenario families x 5 engines; non-trivial = distinct script",
+    partial=["liveness under the real Go scheduler/timers is exercised, not proved; small-step model theorems pending"],
+    modelled=UCI_MODELLED,
+)
+
+PROPS["C16"] = dict(
+    modules=["Morlock.Props.C10"],
+    streams=["ucirace"],
+    timeout=dict(quick=900, thorough=6000),
+    level_text="Tie (decides the property): interleaving scripts against the real driver, each in a child process so that a crash in any goroutine is observed: a search parked inside a "
+               "gated evaluator while position/go/ucinewgame/quit/EOF/isready/unknown/malformed lines arrive, released at a chosen point; slow evaluators; movetime timers left over "
+               "from earlier searches. The trace monitor demands: no crash, no hang, every isready answered, no bestmove in windows where no search may report, every bestmove legal "
+               "in the position of the go it answers (a stale answer of a superseded search is illegal there by construction: side to move differs), clean shutdown on quit and EOF. "
+               "Lean: text-handling lemmas only so far; the small-step model with no_stale / no_send_after_close for all schedules is in progress.",
+    level_note="Trusted: the Go runtime; scripted interleavings cover chosen schedules only; data races are checked by the race detector in the thorough tier. Partial by nature.",
+    technique="fault/interleaving enumeration through a gated evaluator + trace monitor; race detector",
+    rule="10 scenario families (supersede, infinite+stop, isready during search, shutdown during search, stale movetime timer, time limits, malformed lines, go during search, abandon search, bundled engines) x random parameters; non-trivial = distinct script",
+    partial=["all-schedules theorems pending; real scheduler not enumerated"],
+    modelled=UCI_MODELLED,
+)
